@@ -4,9 +4,9 @@ package main
 // may modify. Used to havoc at loop headers and to check modifies clauses.
 
 import (
-	"os"
 	"fmt"
 	"go/types"
+	"os"
 	"strings"
 
 	"golang.org/x/tools/go/ssa"
@@ -160,7 +160,7 @@ func (ex *Exec) callModKeys(fr *frame, c *ssa.CallCommon, keys map[string]bool, 
 		return
 	}
 	dbgStar(c, 3)
-		keys["*"] = true
+	keys["*"] = true
 }
 
 var externalModelNames = map[string]bool{"strings.HasPrefix": true, "strings.Contains": true, "(go/token.Pos).IsValid": true, "strconv.Unquote": true, "strings.Trim": true}
